@@ -1,9 +1,9 @@
-(* Component-level expressions (evaluated on one datapoint), clause operators and dataset-level element-wise
-   operators of the VTL subset (C01, C02).  A dataset is its identifier names, the names of its other components and its
+(* Component-level expressions (evaluated on one datapoint), clause operators, dataset-level element-wise
+   operators and the set operators of the VTL subset (C01, C02, C05).  A dataset is its identifier names, the names of its other components and its
    rows (identifier values, other values).  Definitions only. *)
 From Coq Require Import ZArith QArith Qround String List Bool.
 Import ListNotations.
-From VTL Require Import Base.Val Model.Table Model.Scalar.
+From VTL Require Import Base.Val Model.Table Model.Scalar Model.SetOps.
 Open Scope string_scope.
 Open Scope list_scope.
 
@@ -164,10 +164,52 @@ Definition d_binop (op : binop) (a b : dset) : res dset :=
          (fun l => Ok (mkD (d_ids b) (d_ms a) (flat_map (fun o => match o with Some r => [r] | None => [] end) l)))
   else Err "1-1-14-5".
 
+(* ---------------- set operators inside the core language (C05) *)
+(* union / intersect / setdiff / symdiff of two datasets.  n-ary union(A,B,C) / intersect(A,B,C) are the left-nested binary
+   forms (Proofs/SetOpsP.v: union_left_nested, intersect_left_nested).  Semantics: structural compatibility (the same
+   identifier names and the same other component names, as sets; the engine's semantic analysis answers 1-1-17-1 otherwise),
+   then the datapoints of the SECOND operand are written in the column order of the FIRST (alignment BY NAME), then the
+   function of Model/SetOps.v on the rows. *)
+Inductive setop := OUnion | OIntersect | OSetdiff | OSymdiff.
+
+Definition ERR_SET_STRUCT : string := "1-1-17-1".
+
+Definition same_names (a b : list string) : bool := subset_s a b && subset_s b a.
+Fixpoint nodup_s (l : list string) : bool :=
+  match l with [] => true | h :: t => negb (mem_s h t) && nodup_s t end.
+
+(* a structure that repeats an identifier name is not a dataset structure: rejected like any other mismatch *)
+Definition set_compat (a b : dset) : bool :=
+  same_names (d_ids a) (d_ids b) && same_names (d_ms a) (d_ms b) && nodup_s (d_ids b).
+
+(* one datapoint of the operand with columns (ib, mb) rewritten in the column order (ia, ma); a datapoint that does not
+   have one value per component of its own structure is not a datapoint of that dataset *)
+Definition align_row (ib mb ia ma : list string) (r : list val * list val) : res (list val * list val) :=
+  if Nat.eqb (List.length (fst r)) (List.length ib) && Nat.eqb (List.length (snd r)) (List.length mb) then
+    match proj_key ib (fst r) ia, proj_key mb (snd r) ma with
+    | Some k, Some m => Ok (k, m)
+    | _, _ => Err "1-1-1-10"
+    end
+  else Err "1-1-1-10".
+
+Definition set_rows (op : setop) (a b : list (list val * list val)) : list (list val * list val) :=
+  match op with
+  | OUnion => union [a; b]
+  | OIntersect => intersect [a; b]
+  | OSetdiff => setdiff a b
+  | OSymdiff => symdiff a b
+  end.
+
+Definition d_setop (op : setop) (a b : dset) : res dset :=
+  if negb (set_compat a b) then Err ERR_SET_STRUCT else
+  bind (mapM (align_row (d_ids b) (d_ms b) (d_ids a) (d_ms a)) (d_rows b))
+       (fun rb => Ok (mkD (d_ids a) (d_ms a) (set_rows op (d_rows a) rb))).
+
 (* ---------------- dataset expressions and statements *)
 Inductive dexpr :=
 | DVar (n : string)
 | DBin (op : binop) (a b : dexpr)
+| DSet (op : setop) (a b : dexpr)
 | DMap (a : dexpr) (body : cexpr)              (* unary / dataset∘scalar / parameterised operators *)
 | DFilter (a : dexpr) (c : cexpr)
 | DCalc (a : dexpr) (defs : list (string * cexpr))
@@ -184,6 +226,7 @@ Fixpoint deval (e : denv) (x : dexpr) : res dset :=
   match x with
   | DVar n => match dlook n e with Some d => Ok d | None => Err "1-2-2" end
   | DBin op a b => bind (deval e a) (fun da => bind (deval e b) (fun db => d_binop op da db))
+  | DSet op a b => bind (deval e a) (fun da => bind (deval e b) (fun db => d_setop op da db))
   | DMap a body => bind (deval e a) (fun d => d_map d body)
   | DFilter a c => bind (deval e a) (fun d => d_filter d c)
   | DCalc a defs => bind (deval e a) (fun d => d_calc d defs)
@@ -201,3 +244,52 @@ Fixpoint run_stmts (e : denv) (ss : list (string * dexpr)) : res denv :=
   end.
 Definition run_script (e : denv) (ss : list (string * dexpr)) (result : string) : res dset :=
   bind (run_stmts e ss) (fun e' => match dlook result e' with Some d => Ok d | None => Err "1-2-2" end).
+
+(* ---------------- one-hole contexts of the core language (compositionality statements of C05 / C01 / C02) *)
+Inductive dctx :=
+| KHole
+| KBinL (op : binop) (k : dctx) (b : dexpr)
+| KBinR (op : binop) (a : dexpr) (k : dctx)
+| KSetL (op : setop) (k : dctx) (b : dexpr)
+| KSetR (op : setop) (a : dexpr) (k : dctx)
+| KMap (k : dctx) (body : cexpr)
+| KFilter (k : dctx) (c : cexpr)
+| KCalc (k : dctx) (defs : list (string * cexpr))
+| KKeep (k : dctx) (l : list string)
+| KDrop (k : dctx) (l : list string)
+| KRename (k : dctx) (l : list (string * string))
+| KSub (k : dctx) (l : list (string * val)).
+
+Fixpoint plug (k : dctx) (x : dexpr) : dexpr :=
+  match k with
+  | KHole => x
+  | KBinL op k b => DBin op (plug k x) b
+  | KBinR op a k => DBin op a (plug k x)
+  | KSetL op k b => DSet op (plug k x) b
+  | KSetR op a k => DSet op a (plug k x)
+  | KMap k body => DMap (plug k x) body
+  | KFilter k c => DFilter (plug k x) c
+  | KCalc k defs => DCalc (plug k x) defs
+  | KKeep k l => DKeep (plug k x) l
+  | KDrop k l => DDrop (plug k x) l
+  | KRename k l => DRename (plug k x) l
+  | KSub k l => DSub (plug k x) l
+  end.
+
+(* dataset names read by an expression / by the expressions of a context *)
+Fixpoint dvars (x : dexpr) : list string :=
+  match x with
+  | DVar n => [n]
+  | DBin _ a b | DSet _ a b => dvars a ++ dvars b
+  | DMap a _ | DFilter a _ | DCalc a _ | DKeep a _ | DDrop a _ | DRename a _ | DSub a _ => dvars a
+  end.
+Fixpoint kvars (k : dctx) : list string :=
+  match k with
+  | KHole => []
+  | KBinL _ k b | KSetL _ k b => kvars k ++ dvars b
+  | KBinR _ a k | KSetR _ a k => dvars a ++ kvars k
+  | KMap k _ | KFilter k _ | KCalc k _ | KKeep k _ | KDrop k _ | KRename k _ | KSub k _ => kvars k
+  end.
+
+(* n-ary text forms: union(A, B, C, …) and intersect(A, B, C, …) as left-nested binary nodes *)
+Definition dset_nary (op : setop) (a : dexpr) (rest : list dexpr) : dexpr := fold_left (DSet op) rest a.
